@@ -80,6 +80,24 @@ def oracle(gene, copies, real, perm_texts=None):
                 if not adj:
                     why.append(f"common tandem {ta}+{tb} is not placed on one haplotype next to each other: {real['text']}")
                 break
+    # natural order: of the two haplotypes, and of the alleles inside a haplotype (tandem pairs move as a unit: only
+    # checked when no listed tandem is among the called alleles)
+    import re as _re
+
+    def nkey(x):
+        return [int(c) if c.isdigit() else c for c in _re.split(r"(\d+)", x)]
+    haps = [[x.strip().lstrip("*") for x in h.split(" + ") if x.strip()] for h in real["text"].split(" / ")]
+    if len(haps) == 2:
+        ka, kb = [nkey(x) for x in haps[0]], [nkey(x) for x in haps[1]]
+        if ka > kb:
+            why.append(f"haplotypes are not in natural order: {real['text']}")
+    keys_called = {real_key(ma) for ma, _, _ in copies}
+    tandem_called = n > 2 and any(ta in keys_called and tb in keys_called for ta, tb in gene.common_tandems)
+    if not tandem_called:
+        for h in haps:
+            if [nkey(x) for x in h] != sorted(nkey(x) for x in h):
+                why.append(f"alleles of a haplotype are not in natural order: {real['text']}")
+                break
     if perm_texts is not None and n <= 2 and len(set(perm_texts)) > 1:
         why.append(f"diplotype string depends on the production order: {sorted(set(perm_texts))}")
     return why
